@@ -87,6 +87,20 @@ Definition spec_dataset (c : cmd) (r : resp) (post : state) : bool :=
   | _ => true
   end.
 
+(* ---- a dataset request is answered (the pinned code answers only when the dataset fits one segment) ---- *)
+Definition dataset_verbs : list (bytes * bytes) :=
+  [(w_rib, w_list); (w_fib, w_list); (w_strategy_choice, w_list); (w_cs, w_info); (w_faces, w_list); (w_status, w_general)].
+Definition is_dataset_cmd (allow_localhop : bool) (n : name) : bool :=
+  (length n =? plen + 2)%nat &&
+  match nth_error n plen, nth_error n (plen + 1) with
+  | Some m, Some v =>
+      (is_prefix local_prefix n && existsb (fun p => comp_is m (fst p) && comp_is v (snd p)) dataset_verbs)
+      || (allow_localhop && is_prefix nonlocal_prefix n && comp_is m w_rib && comp_is v w_list)
+  | _, _ => false
+  end.
+Definition spec_answered (allow_localhop : bool) (c : cmd) (r : resp) : bool :=
+  negb (is_dataset_cmd allow_localhop (c_name c)) || match r with RData _ _ _ => true | _ => false end.
+
 (* everything that can be judged from one observed step *)
 Definition spec_step (allow_localhop : bool) (pre : state) (c : cmd) (r : resp) (post : state) : bool :=
   spec_authorised allow_localhop pre c post && spec_reject_pure pre r post && spec_status_class r
